@@ -67,6 +67,8 @@ def step (st : ESt) (toks : List String) : ESt × String :=
     | none => (st, "bad-op")
   | ["skipad"] => reply st (skipClassAdRaw st.s) showU
   | ["tls"] => reply st (tlsRecv st.s) showB
+  | ["krb"] => reply st (krbRead st.s) showB
+  | ["rawfield"] => reply st (rawField st.s) showU
   | ["xkey"] => reply st (exchangeKey st.s) showU
   | ["idstr"] => reply st (getIDString st.s) showB
   | ["token"] => reply st (getToken st.s) showB
